@@ -135,6 +135,20 @@ SPECS = [
          actions={"handle_packet(packet, args, keylog, sessions, portmap, keep_original_ports, exp_meta=metadata)": "RunAct.tls",
                   "handle_quic_packet(packet, keylog, quic_sessions, portmap, keep_original_ports)": "RunAct.quic"},
          action_type="RunAct"),
+    # the exported server port (and the initial sequence numbers) as both output builders' __init__ set them
+    dict(name="output_builder_init", file="tlexport/output_builder.py", func="OutputBuilder.__init__", ret="None",
+         params=[("server_port", "Nat"), ("client_port", "Nat"), ("portmap", "Dict Nat Nat"), ("keep_original_ports", "Bool")],
+         ignore_writes=["self.decrypted_records", "self.server_ip", "self.client_ip", "self.server_mac_addr", "self.client_mac_addr",
+                        "self.out", "self.ipv6"],
+         places=[("self.server_port", "server_port_", "Nat", "rw"), ("self.client_port", "client_port_", "Nat", "rw"),
+                 ("self.default_port", "default_port", "Nat", "rw"),
+                 ("self.server_seq", "server_seq", "Nat", "rw"), ("self.client_seq", "client_seq", "Nat", "rw")]),
+    dict(name="quic_output_builder_init", file="tlexport/quic/quic_output_builder.py", func="QUICOutputbuilder.__init__", ret="None",
+         params=[("server_port", "Nat"), ("client_port", "Nat"), ("portmap", "Dict Nat Nat"), ("keep_original_ports", "Bool")],
+         ignore_writes=["self.decrypted_traffic", "self.server_ip", "self.client_ip", "self.server_mac_address",
+                        "self.client_mac_address", "self.out", "self.ipv6"],
+         places=[("self.server_port", "server_port_", "Nat", "rw"), ("self.client_port", "client_port_", "Nat", "rw"),
+                 ("self.default_port", "default_port", "Nat", "rw")]),
 ]
 
 THEOREMS = ["TLX.Props.Translated." + s["name"] + "_eq_model" for s in SPECS]
